@@ -122,6 +122,10 @@ pub mod fs_err {
     pub fn remove_file<A: PathRef>(path: A) -> (r: Result<(), IoError>)
         requires writes_allowed()
     { unimplemented!() }
+    /// `fs_err::metadata(path)` / `fs_err::symlink_metadata(path)` (API neighbourhood, not called by the unchanged code):
+    /// a size reported for a PATH says nothing here about the content behind it (the path may be a symbolic link)
+    #[verifier::external_body] pub fn metadata<A: PathRef>(path: A) -> (r: Result<Metadata, IoError>) { unimplemented!() }
+    #[verifier::external_body] pub fn symlink_metadata<A: PathRef>(path: A) -> (r: Result<Metadata, IoError>) { unimplemented!() }
     /// fs_err::copy overwrites the destination
     #[verifier::external_body]
     pub fn copy(from: &Path, to: &Path) -> (r: Result<u64, IoError>)
